@@ -91,7 +91,7 @@ impl PanicInfo {
     /// stable identity of a panic: location with the repository prefix stripped + message head
     pub fn key(&self) -> String {
         let loc = self.loc.rsplit_once("/src/").map(|(_, b)| format!("src/{b}")).unwrap_or(self.loc.clone());
-        let head: String = self.msg.chars().take(48).collect();
+        let head: String = self.msg.lines().next().unwrap_or("").chars().take(48).collect();
         format!("panic@{loc}:{head}")
     }
 }
